@@ -216,6 +216,9 @@ def catalogue():
     cat["Ridge2FoldCV"] = xy_est(lambda s: Ridge2FoldCV(alphas=[1e-3, 1e-1] if s == "small" else [1e-4, 1e-2, 1.0], random_state=0), ["predict"])
     cat["OrthogonalRegression[projector]"] = xy_est(lambda s: OrthogonalRegression(use_orthogonal_projector=True), ["predict"])
     cat["OrthogonalRegression[padded]"] = xy_est(lambda s: OrthogonalRegression(use_orthogonal_projector=False), ["predict"])
+    from sklearn.linear_model import LinearRegression as _LR, Ridge as _Ridge
+    cat["OrthogonalRegression[user estimator]"] = xy_est(lambda s: OrthogonalRegression(linear_estimator=_LR()), ["predict"])
+    cat["PCovR[user regressor]"] = xy_est(lambda s: PCovR(mixing=0.5, n_components=2 if s == "small" else 3, regressor=_Ridge(alpha=0.1, fit_intercept=False)), ["transform", "predict"])
 
     def kpre_entry(center):
         from sklearn.kernel_ridge import KernelRidge
@@ -369,6 +372,8 @@ def est_trace(tid, name, entry, hist, dataA, dataB, layout):
         # hyper-parameters of this step (copied attribute-wise: VoronoiFPS hides n_to_select from get_params)
         for kk, vv in vars(factory(st["n"])).items():
             if not kk.endswith("_") and not kk.startswith("_"):
+                if hasattr(vv, "fit") and type(getattr(o, kk, None)) is type(vv):
+                    continue          # a user-supplied sub-estimator stays the SAME instance across the history
                 setattr(o, kk, vv)
         fn, args = fit(o, data[st["d"]], st["y"], layout)
         _, raised = rec.call("fit", fn, args, obj=o, key=key(st["d"], wy, st["n"]), relation="refit" if i > 0 else "repeat")
